@@ -63,6 +63,9 @@ PROPERTY_RULES: Dict[str, List[Scoped]] = {
         _r("MODEL-TABLE"), _r("LABEL-SIBLINGS"), _r("EVENT-EXHAUSTIVE"), _r("TRAVERSAL", S_EVAL),
         _r("CLI-COST-SOURCE"),
     ],
+    "C07": [
+        _r("LCA-PROPAGATE"), _r("TRAVERSAL", ("compute.reconciliation:reconcile_lca",)),
+    ],
     "C08": [
         _r("TREE-WRITE-ARGS"), _r("FIELDS-SERIALISED"), _r("DICT-KEYS"), _r("FEATURE-COPY"),
         _r("RESULT-SCOPE", S_SPFS, S_USPFS), _r("LABEL-PASS", ("compute.",)),
@@ -215,6 +218,21 @@ PROPERTY_INFO: Dict[str, Dict] = {
         "not_decided": [
             "node_event's classification predicate (ancestor relations at run time)",
             "values of distance() and subseq_segment_dist()",
+        ],
+    },
+    "C07": {
+        "explanation": "Static analysis (ast, dataflow of one function): the LCA reconciliation assigns a leaf its "
+        "given species and every internal node the LCA oracle of the images of all its children, in post-order, "
+        "and returns that mapping. Decides that the mapping computed is 'LCA of the children's images' (hence, by "
+        "induction, of the species of its leaves) - a necessary condition of the property; optimality and "
+        "uniqueness are not decided.",
+        "decided": [
+            "leaf anchored to leaf_object_species; internal image = species_lca over the images of all children (LCA-PROPAGATE)",
+            "children computed before their parent (TRAVERSAL)",
+        ],
+        "not_decided": [
+            "minimality among all reconciliations and uniqueness for positive loss cost (numerical for-all)",
+            "exactness of the LCA oracle itself (C17)",
         ],
     },
     "C08": {
